@@ -76,6 +76,70 @@ class StrictDoc:
             self.where[(o["num"], o["gen"])] = o["where"]
 
 
+def png_predict(raw, cols, rng):
+    """PNG predictor encoding (Colors 1, 8 bits) with filter types None/Sub/Up per row: inverse of ISO 15948 9.2"""
+    raw = raw + bytes(-len(raw) % cols)
+    out = bytearray()
+    prev = bytes(cols)
+    for r in range(0, len(raw), cols):
+        row = raw[r:r + cols]
+        ft = rng.choice([0, 1, 2])
+        if ft == 0:
+            enc = row
+        elif ft == 1:
+            enc = bytes((row[i] - (row[i - 1] if i else 0)) & 255 for i in range(cols))
+        else:
+            enc = bytes((row[i] - prev[i]) & 255 for i in range(cols))
+        out.append(ft)
+        out += enc
+        prev = row
+    return bytes(out), raw
+
+
+def rl_encode(raw):
+    out = bytearray()
+    for i in range(0, len(raw), 128):
+        c = raw[i:i + 128]
+        out.append(len(c) - 1)
+        out += c
+    out.append(128)
+    return bytes(out)
+
+
+def filtered_stream(rng, d, k):
+    """a stream whose filter chain / parameters exercise QPDF_Stream's pairing of /Filter with /DecodeParms and the writer's
+    treatment of stream parameters: multi-filter chains with a parameter array, predictors on a non-first filter, indirect
+    /Filter, /DecodeParms, array elements (objects nothing else references)"""
+    raw = bytes(rng.choice(b"abc \n\x00\xff") for _ in range(rng.choice([8, 64, 96, 300])))
+    cols = rng.choice([1, 4, 8, 12])
+    shape = rng.randrange(9)
+    ahx = lambda b: b.hex().encode() + b">"
+    pred, raw_p = png_predict(raw, cols, rng)
+    pp = D(Predictor=rng.choice([10, 12, 15]), Columns=cols)
+    if shape == 0:      # Flate + predictor, direct parameters
+        return Stream({b"Marker": k, b"Filter": N("FlateDecode"), b"DecodeParms": pp}, zlib.compress(pred))
+    if shape == 1:      # [AHx Fl] with [null parms]: the predictor belongs to the SECOND filter
+        return Stream({b"Marker": k, b"Filter": [N("ASCIIHexDecode"), N("FlateDecode")], b"DecodeParms": [None, pp]}, ahx(zlib.compress(pred)))
+    if shape == 2:      # [Fl AHx] with [parms null]: the predictor belongs to the FIRST filter, applied to hex text
+        h = raw.hex().encode()
+        h = h + b" " * (-(len(h) + 1) % cols) + b">"          # a whole number of rows, padding before the EOD marker
+        predh, _ = png_predict(h, cols, rng)
+        # decoded data = hex-decoded (unpredicted h); ground truth is computed by the oracle's own decoder
+        return Stream({b"Marker": k, b"Filter": [N("FlateDecode"), N("ASCIIHexDecode")], b"DecodeParms": [pp, None]}, zlib.compress(predh))
+    if shape == 3:      # indirect /DecodeParms
+        return Stream({b"Marker": k, b"Filter": N("FlateDecode"), b"DecodeParms": d.add(pp)}, zlib.compress(pred))
+    if shape == 4:      # indirect /Filter name
+        return Stream({b"Marker": k, b"Filter": d.add(N("FlateDecode"))}, zlib.compress(raw))
+    if shape == 5:      # indirect elements inside the /Filter and /DecodeParms arrays
+        return Stream({b"Marker": k, b"Filter": [d.add(N("ASCIIHexDecode")), N("FlateDecode")], b"DecodeParms": [None, d.add(pp)]}, ahx(zlib.compress(pred)))
+    if shape == 6:      # three filters, parameters on the last
+        return Stream({b"Marker": k, b"Filter": [N("ASCIIHexDecode"), N("RunLengthDecode"), N("FlateDecode")], b"DecodeParms": [None, None, pp]},
+                      ahx(rl_encode(zlib.compress(pred))))
+    if shape == 7:      # single non-Flate filters
+        return Stream({b"Marker": k, b"Filter": N("RunLengthDecode")}, rl_encode(raw))
+    return Stream({b"Marker": k, b"Filter": [N("ASCIIHexDecode")], b"DecodeParms": [None]}, ahx(raw))
+
+
 # ------------------------------------------------------------------ generated inputs
 
 def gen_docs(rng, n, big=False):
@@ -90,8 +154,10 @@ def gen_docs(rng, n, big=False):
         nx = rng.choice([0, 3, 10, 40]) if not big else rng.choice([90, 99, 100, 101, 199, 201, 260])
         prev = None
         for k in range(nx):
-            kind = rng.randrange(8)
-            if kind == 0:
+            kind = rng.randrange(10)
+            if kind >= 8:
+                v = filtered_stream(rng, d, k)
+            elif kind == 0:
                 if rng.random() < 0.5:
                     v = Str(bytes(rng.randrange(256) for _ in range(rng.choice([0, 1, 5, 30]))))
                 else:
